@@ -93,8 +93,17 @@ Fixpoint first_bad_line (n : nat) (hdr : Z) (plus : bool) (i : nat) (ls : list (
   | [] => None
   | l :: rest => if line_bad n hdr plus i l then Some i else first_bad_line n hdr plus (S i) rest
   end.
+(* the lines of the text are grouped into records of n lines.  A violation inside a complete record is reported at
+   its line (the first one wins); otherwise a final record that was cut short - fewer than n lines that are not all
+   white space - is reported at its first line w; trailing blank lines are no record. *)
 Definition spec_oneline (f : fmt) (file_text : list Z) : option nat :=
   match f with
-  | OneLine n hdr plus => first_bad_line n hdr plus 0 (lines file_text)
+  | OneLine n hdr plus =>
+      let ls := lines file_text in
+      let w := ((length ls / n) * n)%nat in
+      match first_bad_line n hdr plus 0 (firstn w ls) with
+      | Some l => Some l
+      | None => if leftover_ok f (concat (skipn w ls)) then None else Some w
+      end
   | _ => None
   end.
